@@ -403,7 +403,7 @@ theorem step6_affine {c : Cfg} (u : Unbounded c) (o : Oracles) {a : Rat} (ha : 0
     | ok m2 =>
       have e2 := setBound_inf_ok (Or.inr u.upperBound) hs2
       subst e2
-      simp only [Except.map, bind, Except.bind, pure, Except.pure]
+      simp only [Except.map, pure, Except.pure]
       have hval : ∀ (l : List Rat), l.length = m2.length → takeIdx (affine a b l) (rankOf X) = affine a b (takeIdx l (rankOf X)) := by
         intro l hl
         apply takeIdx_map
@@ -444,13 +444,13 @@ theorem applyOnWindow_affine {c : Cfg} (u : Unbounded c) (htm : c.trendMethod = 
   cases step5 c o (step3 c o obs H X yO yH yF).1 (step3 c o obs H X yO yH yF).2.1 (step3 c o obs H X yO yH yF).2.2.1 with
   | error e => rfl
   | ok oF =>
-    simp only [Except.map, Except.bind]
+    simp only [Except.map]
     rw [step6_affine L scaleAt u o ha b]
     cases step6 c (IsiFamily.ofLocScale F scaleAt) o (step3 c o obs H X yO yH yF).1 oF (step3 c o obs H X yO yH yF).2.1
         (step3 c o obs H X yO yH yF).2.2.1 with
     | error e => rfl
     | ok r =>
-      simp only [Except.map, Except.bind]
+      simp only [Except.map]
       rw [step7_affine]
 
 end step6
